@@ -51,11 +51,11 @@ open Jxl Jxl.Enc List
 token and extra bits the encoder emits returns `v` and consumes exactly those bits. -/
 theorem C04_uint_roundtrip (c : IntegerConfig) (hc : c.msbInToken + c.lsbInToken ≤ c.splitExponent)
     (v : Nat) (hv : v < 2 ^ 32) (rest : Bits) :
-    readUint c (tokenOf c v) (uintBits c v ++ rest) = (v, rest) :=
+    readUint c (tokenOf c v) (uintBits c v ++ rest) = .ok (v, rest) :=
   readUint_splitUint c hc v hv rest
 
 example : readUint ⟨4, 1, 2⟩ (tokenOf ⟨4, 1, 2⟩ 0xDEADBEEF) (uintBits ⟨4, 1, 2⟩ 0xDEADBEEF ++ [true])
-    = (0xDEADBEEF, [true]) := by decide
+    = .ok (0xDEADBEEF, [true]) := by decide
 
 /-- `IntegerConfig::parse(log_alphabet_size)` reads back every valid config. -/
 theorem C04_integer_config_roundtrip (la : Nat) (hla : la < 2 ^ 32) (c : IntegerConfig)
